@@ -52,26 +52,6 @@ theorem history_from_init (g : Nat → Nat → Nat) (hg : ∀ n c, n ≤ g n c) 
     (hs : srunAll SSt.init ops = some ss') : ∃ st', runAll g St.init ops = .ok st' ∧ GInv st' ss' :=
   history g hg ops ss' ginv_init hs
 
-/-- iterating `begin() .. end()` reads exactly the specification's list -/
-theorem toList_of_owns {h : Heap} {v : RV} {l : List Int} (ho : Owns h v l) : toList h v = .ok l := by
-  obtain ⟨hlen, hcap, hb⟩ := ho
-  cases hbase : v.base with
-  | none =>
-    rw [hbase] at hb
-    simp only at hb
-    have : l = [] := List.eq_nil_of_length_eq_zero (by omega)
-    subst this
-    simp [toList, hbase]; omega
-  | some b =>
-    rw [hbase] at hb
-    obtain ⟨c, hslot, hc⟩ := hb
-    simp only [toList, hbase]
-    rw [← hlen]
-    exact readRange_spec b v.cap c h hslot l 0 (by omega) (fun k hk => by rw [Nat.zero_add]; exact hc k hk)
-
-theorem readArea_eq (h : Heap) (b : Buf) : Buf.readArea h b = toList h b.toRV := by
-  cases b with | mk base r w c => cases base <;> rfl
-
 /-- After every valid history: contents (by iteration) and size of every vector are those of std::vector,
 and the capacity is never below the size. -/
 theorem contents_size_capacity (g : Nat → Nat → Nat) (hg : ∀ n c, n ≤ g n c) (ops : List Op) (ss' : SSt)
